@@ -173,6 +173,21 @@ func (ru *run) newType(i int, depth int) *tcase {
 		if len(sch) > 6000 {
 			continue
 		}
+		// steer away from the D02d pattern at scale: a sequence of zero-size elements behind a 4/8-byte length prefix
+		// iterates up to 2^32 times on a mutated count (minutes); uint8/uint16 prefixes keep the pattern but bound it
+		slow := false
+		eff.walk(func(n *Node) {
+			if (n.K == KSlice || n.K == KArr) && n.Elem.minSize() == 0 && n.L >= 2 {
+				slow = true
+			}
+			if n.K == KMap && n.Key.minSize()+n.Elem.minSize() == 0 && n.L >= 2 {
+				slow = true
+			}
+		}, 0)
+		if slow {
+			ru.st.Count("gen:skipped-zero-size-wide-prefix")
+			continue
+		}
 		if err := sh.register(); err != nil {
 			vx.Die("registration failed (generator bug): %v\n%s", err, sch)
 		}
@@ -231,6 +246,12 @@ func (ru *run) addEnc(tc *tcase, val bool, vterm string, b []byte, cls string) {
 
 func (ru *run) addDec(tc *tcase, val bool, in []byte, d decRes) {
 	var o string
+	if d.cls == "" && tc.sh.HasZero && maxLen(tc.eff, d.ptr.Elem(), 0) > len(in)+1 {
+		// a decoded collection longer than the whole input: only zero-size elements can do that (D02d); the model
+		// reports the distinguished error EUnbounded for it
+		d.cls = "EUnbounded"
+		ru.st.Count("dec:iterations-exceed-input")
+	}
 	switch d.cls {
 	case "":
 		o = fmt.Sprintf("(ODOk %s %d)", toCoq(tc.eff, d.ptr.Elem()), d.n)
@@ -655,6 +676,11 @@ func (ru *run) c03(tc *tcase, nvals int) {
 			return
 		}
 		sig := zsig(tc, "noncanonical-accepted")
+		if tc.sh.HasTime && hasSaturatedTime(tc.eff, d.ptr.Elem(), 0) {
+			// documented exclusion (guard no_time_saturation): a stamp above MaxInt64 ns was saturated / wrapped by ReadTime
+			ru.st.Count("c03:time-saturation-excluded")
+			return
+		}
 		if tc.sh.HasTime && cls2 == "" {
 			// documented exclusion: stamps above MaxInt64 ns saturate; only counted when a re-decode of the re-encoding is stable
 			d3 := doDecode(tc.sh, tc.eff.T, b2, true, false)
@@ -938,7 +964,7 @@ func main() {
 	if salt == 0 {
 		vx.Die("unknown mode %s", mode)
 	}
-	ru := &run{r: vx.NewRng(*seed*64 + salt), mode: mode, seed: *seed}
+	ru := &run{r: vx.NewRng(*seed*64 + salt).Fork().Fork(), mode: mode, seed: *seed} // forked: NewRng streams of nearby seeds overlap
 	ru.st = vx.NewStats("distinct (schema, input, validation) triples whose root is a pointer/struct/slice/array/map (schema depth >= 2)")
 	ru.cf = &vx.CasesFile{Type: "case"}
 	var known []string
@@ -976,4 +1002,48 @@ func main() {
 		vx.Die("write stats: %v", err)
 	}
 	fmt.Printf("%s: %d types, %d cases, %d oracle failures, known=%v\n", mode, *ntypes, ru.cf.Len(), len(ru.st.OracleFailures), known)
+}
+
+// hasSaturatedTime: the decoded value holds a time stamp that ReadTime produces for wire stamps above MaxInt64 ns
+// (exactly MaxInt64, or a wrapped negative one).
+func hasSaturatedTime(n *Node, v reflect.Value, depth int) bool {
+	if depth > 16 {
+		return false
+	}
+	switch n.K {
+	case KTime:
+		t := v.Interface().(time.Time)
+		return t.Unix() < 0 || t.UnixNano() == 1<<63-1
+	case KPtr:
+		return !v.IsNil() && hasSaturatedTime(n.Elem, v.Elem(), depth+1)
+	case KStruct:
+		for i, f := range n.Fields {
+			if hasSaturatedTime(f.N, v.Field(i), depth+1) {
+				return true
+			}
+		}
+	case KSlice, KArr:
+		for i := 0; i < v.Len(); i++ {
+			if hasSaturatedTime(n.Elem, v.Index(i), depth+1) {
+				return true
+			}
+		}
+	case KMap:
+		it := v.MapRange()
+		for it.Next() {
+			if hasSaturatedTime(n.Key, it.Key(), depth+1) || hasSaturatedTime(n.Elem, it.Value(), depth+1) {
+				return true
+			}
+		}
+	case KIface:
+		if !v.IsNil() {
+			d := v.Elem()
+			for _, a := range n.Iface.Alts {
+				if a.N.T == d.Type() {
+					return hasSaturatedTime(a.N, d, depth+1)
+				}
+			}
+		}
+	}
+	return false
 }
